@@ -556,7 +556,7 @@ fn check_cred(purpose: Purpose, fragment: bool, init: Init, ops: &[CredOp], obs:
           obs.nontrivial();
           vensure!(
             obs,
-            matches!(r, Err(StatusList2021CredentialError::UnreversibleRevocation)),
+            r.is_err(), // which error says "cannot be cleared" is not stated; that the entry stays set is checked on the stored list
             "revocation-cleared-on-request",
             "{what} on a revocation list whose entry {idx} is set returned {:?}",
             r.as_ref().map(|_| ())
@@ -685,7 +685,7 @@ fn check_cred(purpose: Purpose, fragment: bool, init: Init, ops: &[CredOp], obs:
             obs.nontrivial();
             vensure!(
               obs,
-              matches!(r, Err(StatusList2021CredentialError::UnreversibleRevocation)),
+              r.is_err(), // which error says "cannot be cleared" is not stated; that the entry stays set is checked on the stored list
               "revocation-cleared-on-request",
               "MutStatusList::set_entry({}, false) on a revocation list whose entry is set returned {r:?}",
               w.idx
@@ -812,7 +812,8 @@ pub fn check(case: &Case, obs: &mut Obs) -> CheckResult {
           }
           let len = list.len() as u64;
           vensure!(obs, len >= *entries, "new-len-smaller-than-requested", "new({entries}).len() = {len}");
-          vensure!(obs, len == round_up8(*entries), "new-len-not-rounded-up-to-8", "new({entries}).len() = {len}, documented: next multiple of 8");
+          // the rustdoc says "next multiple of 8"; the statement only needs a fixed length that holds the entries
+          obs.label(if len == round_up8(*entries) { "new-len-rounded-up-to-8" } else { "new-len-other" });
           let model = vec![false; len as usize];
           full_scan(&list, &model, obs)?;
           for i in [len, len + 1, len + 7, u64::MAX] {
@@ -856,13 +857,28 @@ pub fn check(case: &Case, obs: &mut Obs) -> CheckResult {
       } else {
         "size-larger"
       });
-      vensure!(
-        obs,
-        list.len() == len,
-        "initial-length-differs",
-        "list for {entries} entries ({init:?}) has len() {}, expected {len}",
+      // A decoded list has exactly the bits of its bytes; a new one has at least the entries asked for (the rustdoc
+      // rounds up to a multiple of 8, which the statement does not require) and is empty.
+      let len = if matches!(init, Init::Zero) {
+        vensure!(
+          obs,
+          list.len() >= *entries as usize,
+          "new-len-smaller-than-requested",
+          "new({entries}).len() = {}",
+          list.len()
+        );
+        model = vec![false; list.len()];
         list.len()
-      );
+      } else {
+        vensure!(
+          obs,
+          list.len() == len,
+          "initial-length-differs",
+          "list for {entries} entries ({init:?}) has len() {}, expected {len}",
+          list.len()
+        );
+        len
+      };
       // spot-check the installed content now (first/last bytes); the final scan covers everything that was not written
       if !check_installed(&list, &model, 0..16, obs)? || !check_installed(&list, &model, len - 16..len, obs)? {
         return Ok(());
